@@ -187,6 +187,15 @@ func (s *CollapsingHighestDenseStore) Clear() {
 	s.isCollapsed = false
 }
 
+func (s *CollapsingHighestDenseStore) Reweight(w float64) error {
+	err := s.DenseStore.Reweight(w)
+	if s.IsEmpty() {
+		// All the counts may have underflowed to zero.
+		s.isCollapsed = false
+	}
+	return err
+}
+
 func (s *CollapsingHighestDenseStore) DecodeAndMergeWith(r *[]byte, encodingMode enc.SubFlag) error {
 	return DecodeAndMergeWith(s, r, encodingMode)
 }
